@@ -189,6 +189,16 @@ def gen_minimal(ck, rng, cases):
                 g.append(feature(kind, g, tb=0, access="RW", **{ref: 2}))
                 ops = [("bs", 2, 0), ("bs", 2, 1)] if ctl["kind"] == "Boolean" else [("s", 2, 0), ("s", 2, 1), ("s", 2, 2)]
                 add(cases, g, ops, "minimal graphs")
+                if kind == "MaskedIntReg":
+                    # the same feature as a StructEntry: the restriction declared on the StructReg (inherited) or on
+                    # the entry, with a second restriction of another kind at the other level
+                    for lv in (0, 31, 1, 2, 4, 27, 29, 30):
+                        for other in ("impl", "avail", "lock"):
+                            if other == ref:
+                                continue
+                            g2 = [dict(x) for x in g[:3]] + [A.node("Integer", value=("slot", 1))]
+                            g2.append(feature(kind, g2, tb=0, access="RW", struct=lv, **{ref: 2, other: 3}))
+                            add(cases, g2, ops + [("s", 3, 0)] + ops + [("s", 3, 1)] + ops, "StructReg entries")
     # formula variables standing for a sub-property of their node (X.Min, X.Max, X.Inc, X.Value, X.Enum.E): the node
     # must be readable whatever the accessor; sources in every access situation, controls flipped
     for kind in ("SwissKnife", "IntSwissKnife", "Converter", "IntConverter"):
@@ -407,6 +417,8 @@ def gen_random(ck, rng, cases, count):
                 kw["access"] = rng.choice(MODES + ("RW",))
                 kw["init"] = rng.choice([0, 1, 1, 2])
                 kw["mapped"] = not (bad and rng.chance(1, 6))
+                if kind == "MaskedIntReg" and rng.chance(1, 3):
+                    kw["struct"] = rng.below(32)         # written as a StructEntry, elements split between the two levels
 
             def iop(kinds, v):
                 m = pick(kinds) if rng.chance(2, 3) else None
